@@ -128,6 +128,9 @@ Definition s_step (st : sstate) (o : op) : sstate * nat :=
       | None => (st, R_INVALID)
       | Some _ => (st, R_OK)
       end
+  | AddSeparator =>
+      (* every separator is a row of its own, hence an owner of its own, starting empty *)
+      (mkS (s_put (s_map st) (ORow (length (s_rows st))) a_empty) (s_ncols st) (s_rows st ++ [(true, 0)]) (s_ndets st) (s_handles st), R_OK)
   | NewCellOf ow =>
       if s_is_cell ow then
         match canon st ow with
